@@ -1,4 +1,5 @@
 #!/bin/bash
+export VERIF_EVIDENCE_DIR=/verif/work/mutation-evidence; mkdir -p $VERIF_EVIDENCE_DIR
 # usage: seed_eval.sh <worktree-id> <seeded-name> <check ids...>
 # 1. confirms the sub-agent's claims in its scratch worktree, 2. stores the mutation under
 # /verif/seeded/<seeded-name>/, 3. applies it to /repo, runs the checks, reverts.
